@@ -14,13 +14,16 @@ PLAN = {
     "C02": {"mc": ["MC_Lease", "MC_Names"], "gen": [("Gen_Mixed", 160, 4000, 25, True), ("Gen_Names", 60, 1500, 32, True), ("Gen_Snap", 60, 1500, 30, True), ("BFS_Recreate", 0, 0, 6, False)]},
     "C03": {"mc": ["MC_Lease", "MC_DeadLetter"], "gen": [("Gen_Mixed", 120, 3000, 25, True), ("Gen_Ordered", 60, 1500, 30, True), ("Gen_DeadLetter", 60, 1500, 32, True)]},
     "C04": {"mc": ["MC_Lease", "MC_Timing"], "gen": [("Gen_Mixed", 80, 2500, 25, True), ("Gen_Timing", 60, 2000, 30, True), ("Gen_DeadLetter", 40, 1000, 32, True),
-                                                     ("Gen_Lease", 100, 3000, 60, False, 100)]},
+                                                     ("Gen_Lease", 100, 3000, 60, False, 100), ("BFS_Blocked", 0, 0, 6, False)]},
     "C05": {"mc": ["MC_Ordered"], "impl": ["MC_ImplSnap"], "impl_thorough": ["MC_ImplSnap_thorough", "MC_ImplSeek"], "gen": [("Gen_Ordered", 240, 6000, 30, True), ("Gen_Mixed", 80, 2000, 25, True)]},
     "C06": {"mc": ["MC_DeadLetter"], "gen": [("Gen_DeadLetter", 240, 6000, 32, True), ("Gen_Mixed", 60, 1500, 25, True)]},
     "C12": {"mc": ["MC_Names"], "gen": [("Gen_Names", 300, 6000, 32, False)]},
     "C13": {"mc": ["MC_Seek"], "impl": ["MC_ImplSnap"], "impl_thorough": ["MC_ImplSnap_thorough", "MC_ImplSeek"], "gen": [("Gen_Seek", 120, 4000, 32, True), ("Gen_Snap", 80, 4000, 30, True), ("BFS_Snap", 0, 60000, 8, False)]},
     "C14": {"mc": ["MC_Timing"], "gen": [("Gen_Timing", 260, 6000, 30, True)]},
-    "C15": {"mc": ["MC_Prune"], "gen": [("Gen_Prune", 200, 5000, 34, True), ("Gen_Names", 60, 1500, 32, True)], "converge": True,
+    "C15": {"mc": ["MC_Prune"], "gen": [("Gen_Prune", 200, 5000, 34, True), ("Gen_Names", 60, 1500, 32, True),
+                    # dead-letter forwards leave messages of one topic outstanding on subscriptions of another:
+                    # reclaiming the source topic must leave them alone
+                    ("Gen_DeadLetter", 60, 1500, 32, True)], "converge": True,
             # design-level liveness (no VIEW, no constraint): fair job runs empty every table once everything is deleted
             "mc_thorough_extra": ["MC_Converge"]},
     # C09: every mutating step of the generated histories is re-run with the k-th
@@ -116,6 +119,9 @@ def run(prop, tier, seed, replay=None):
 
 def _run(ctx, replay):
     prop, tier, seed = ctx.prop, ctx.tier, ctx.seed
+    if replay and json.load(open(replay))["scenario"].get("eager"):
+        import stream   # a stream session (C03 reopen): replayed by the stream machinery
+        return stream._run(ctx, replay)
     plan = PLAN[prop]
     vlib.build_harness(ctx, ["busexec"])
 
@@ -155,7 +161,9 @@ def _run(ctx, replay):
                 # fault enumeration re-runs every step many times: a coarser time unit keeps
                 # the nominal clock ahead of the wall clock
                 scen.append({"id": "%s-%d-%d" % (mod, seed, i), "unit_ms": 20000 if plan.get("fault") else unit,
-                             "steps": h, "drain": drain, "family": mod, "converge": bool(plan.get("converge")) and not mod.startswith("BFS_")})
+                             "steps": h, "drain": drain, "family": mod, "converge": bool(plan.get("converge")) and not mod.startswith("BFS_"),
+                             # every other scenario of the random families runs its pulls on idle subscriptions as BLOCKING pulls
+                             "blocked": mod == "BFS_Blocked" or ((i % 2 == 1) and not mod.startswith("BFS_") and mod != "Gen_Lease")})
     # (2b) refinement check of the mechanism model against the contract: every design-level
     # counterexample becomes a scenario; only what the REAL code does with it counts
     impl_stats = []
@@ -188,6 +196,17 @@ def _run(ctx, replay):
     else:
         res = vlib.run_busexec(ctx, sp, tp)
     val = vlib.validate(ctx, tp)
+
+    # C03 also covers streaming acks: sessions whose acknowledgements travel in the opening
+    # request of a new stream, validated by StreamTrace (clause C03:stream-redelivers-acked)
+    if prop == "C03" and not replay:
+        import stream
+        rscen, rval = stream.reopen_sessions(ctx, 6 if tier == "quick" else 60)
+        val["viols"] += [dict(v, bad=[]) for v in rval["viols"] if v["clause"].startswith("C03")]
+        val["traces"] += rval["traces"]
+        val["steps"] += rval["steps"]
+        for s_ in rscen:
+            scen.append(s_)
 
     # attribute
     by_tr = collections.defaultdict(list)
